@@ -10,8 +10,11 @@ for n in $NAMES; do
   [ -f $d/patch.diff ] || continue
   if ! git -C /repo apply --check $PWD/$d/patch.diff 2>/dev/null; then echo "$n: patch does not apply to the current tree"; continue; fi
   git -C /repo apply $PWD/$d/patch.diff
+  cp evidence/$id.json /tmp/evidence-$id.keep 2>/dev/null   # evidence must describe the unchanged tree only
   out=$(VERIF_SEED=${VERIF_SEED:-0} ./check $id quick 2>&1); rc=$?
   git -C /repo checkout -q -- .
+  [ -f /tmp/evidence-$id.keep ] && mv /tmp/evidence-$id.keep evidence/$id.json
+  rm -rf replays/$id/found
   sigs=$(echo "$out" | grep -E "^  signature:" | sed 's/  signature: //' | sort -u | tr '\n' ' ')
   echo "$n: rc=$rc $(echo "$out" | grep -E "^$id quick" | sed 's/.*evaluations/evaluations/') ${sigs}"
 done
